@@ -18,7 +18,7 @@ import WallGo.hydrodynamicsTemplateModel as HT
 
 from symx import axioms, core, npx
 from symx.core import AND, OR, NOT, Cond, Sym, eq, ge, gt, le, lt, ne
-from symx.harness import HarnessDef
+from symx.harness import HarnessDef, bare
 
 EXPLANATION = __doc__
 BOUNDS = {"parameters": "cs^2, cb^2 in (0.05,0.5); alphaN in (1e-3,1); psiN in (0.3,1); v in (0,1): symbolic",
@@ -42,7 +42,7 @@ def pow_inverse_axioms(e):
 
 def make_template(h, with_T=False):
     h.patch(HT, float=npx.symfloat, np=npx.NP(), pow=core.sym_pow)
-    t = HT.HydrodynamicsTemplateModel.__new__(HT.HydrodynamicsTemplateModel)
+    t = bare(HT.HydrodynamicsTemplateModel)
     t.cs2 = h.real("cs2", 0.05, 0.5, default=1 / 3)
     t.cb2 = h.real("cb2", 0.05, 0.5, default=0.3)
     t.cs = core.sym_sqrt(t.cs2) if h.symbolic else t.cs2 ** 0.5
@@ -184,6 +184,54 @@ def h_shooting(h):
                 conc=lambda: abs(res) <= 1e-9)
 
 
+def h_tmatching(h):
+    """template.findMatching (deflagration / hybrid): with the shooting residual an arbitrary function
+    of (vw, v+): v- = min(vw, c_b); the v+ bracket is [0, min(cs^2/vw, vw)], cut at the point where the
+    template enthalpy w+ changes sign FOR THAT v- (alpha+(v+, v-) = (mu-nu)/(3 mu)); None only without a
+    sign change of the residual; otherwise v+ is a zero of the residual and T+ = Tn w+(alpha+)^(1/mu)."""
+    from props.hydrokit import ScipyStubs
+    t = make_template(h)
+    t.vJ = h.real("vJ", 0.05, 0.99, default=0.85)
+    t.vMin = h.real("vMin", 0, 0.5, strict=False, default=0.01)
+    vw = h.real("vw", 0.01, 0.99, default=0.62)
+    h.assume(AND(le(vw, t.vJ), ge(vw, t.vMin)))
+    SH = h.ufun("Shoot", lambda vw_, vp_: vp_ - 0.3)
+    t._shooting = lambda vw_, vp_: SH(vw_, vp_)
+    Tm_stub = h.real("TmFound", 0.01, 1e4, default=0.9)
+    t._findTm = lambda vm_, vp_, Tp_: Tm_stub
+    st = ScipyStubs(h, bad_bracket="raise")
+    h.patch_always(HT, root_scalar=st.root_scalar)
+    out = t.findMatching(vw)
+    rs = [c for c in st.calls if c[0] == "root_scalar"]
+    h.prove("one bracketed root search", Cond(b=len(rs) == 1 and rs[0][2] is not None))
+    a, b = rs[0][2]
+    cb = t.cb
+    vm = vw if bool(vw <= cb) else cb
+    cap0 = (t.cs2 / vw) if bool(t.cs2 / vw <= vw) else vw
+    target = (t.mu - t.nu) / (3 * t.mu)
+
+    def alpha_plus(vp_, vm_):
+        return (vp_ / vm_ - 1.0) * (vp_ * vm_ / t.cb2 - 1.0) / (1 - vp_ * vp_) / 3.0
+    h.prove("bracket starts at v+ = 0", eq(a, 0.0) if isinstance(a, Sym) else Cond(b=a == 0))
+    h.prove("bracket ends at min(cs^2/vw, vw), or just below the sign change of w+ at THIS v- = min(vw, c_b)",
+            core.OR(eq(b, cap0), AND(lt(b, cap0), eq(alpha_plus(b + 1e-10, vm), target))),
+            conc=(lambda: abs(b - cap0) <= 1e-12 or (b < cap0 and abs(alpha_plus(b + 1e-10, vm) - target) <= 1e-7))
+            if not h.symbolic else None)
+    if out[0] is None:
+        h.prove("None only if the residual has one sign at both bracket ends", gt(SH(vw, a) * SH(vw, b), 0))
+        return
+    vp, vm_o, Tp, Tm = out
+    h.prove_eq("v+ is a zero of the shooting residual", SH(vw, vp), 0.0)
+    h.prove_eq("v- = min(vw, c_b)", vm_o, vm)
+    al = alpha_plus(vp, vm)
+    h.assume(gt(core.sabs((1 - 3 * al) * t.mu - t.nu) if h.symbolic else abs((1 - 3 * al) * t.mu - t.nu), 1e-3),
+             "returned v+ not within 1e-3 of the pole of w+(alpha+) (there the float comparison is ill-conditioned)")
+    wp = t.wFromAlpha(al)
+    h.assume(gt(wp, 0), "positive enthalpy at the returned v+")
+    h.prove_eq("T+ = Tn w+(alpha+(v+, v-))^(1/mu)", Tp, t.Tnucl * core.sym_pow(wp, 1 / t.mu) if h.symbolic else t.Tnucl * wp ** (1 / t.mu))
+    h.prove_eq("T- from _findTm", Tm, Tm_stub)
+
+
 def h_maxal(h, part, cap=100.0):
     """template.maxAl: (a) the residual it brackets is the SAME wall-matching residual as _eqWall
     (evaluated through the real _eqWall with getVp / wFromAlpha pinned to the closure's v+ and w+);
@@ -286,6 +334,11 @@ HARNESSES = [
                encodes=[HT.HydrodynamicsTemplateModel.detonationVAndT], random_validation=3),
     HarnessDef("template-ode", h_ode, [dict(wave="shock"), dict(wave="rarefaction")], max_paths=20, timeout_s=60,
                axioms=AX, encodes=[HT.HydrodynamicsTemplateModel._dxiAndWdv], random_validation=3),
+    HarnessDef("template-findMatching", h_tmatching,
+               [dict(_pin=dict(cs2=0.239, cb2=0.315, alN=0.0807, psiN=0.897, wN=2.0, pN=0.4, Tn=1.0, vJ=0.9, vMin=0.01)),
+                dict(_pin=dict(cs2=1 / 3, cb2=0.3, alN=0.05, psiN=0.9, wN=2.0, pN=0.4, Tn=1.5, vJ=0.85, vMin=0.01))],
+               max_paths=100, timeout_s=60, axioms=AX,
+               encodes=[HT.HydrodynamicsTemplateModel.findMatching], random_validation=2, concrete_alarms=False),
     HarnessDef("template-maxAl", h_maxal,
                [dict(part="residual"), dict(part="sentinels"),
                 # semi-concrete twins where the plain-float run of the real code (real scipy) takes the
